@@ -4,4 +4,4 @@ from props.common import corpus_check
 
 
 def run(ctx):
-    return corpus_check(ctx, "C11", oracles.c11)
+    return corpus_check(ctx, "C11", oracles.c11, l1_oracle=lambda it: oracles.l1_c11(it) + (oracles.files_c11_imports(it["impl"]["stubs"], it["nc"]) if str(it["api_seed"]).startswith("shape:") else []))
